@@ -119,12 +119,15 @@ def tlc(module, cfg=None, env=None, workers=None, timeout=900, heap="4g", xss=No
         r.depth = int(m.group(1))
     r.bad = sorted(set(int(x) for x in re.findall(r'<<"BAD", (\d+)>>', out)))
     r.prints = re.findall(r'^(<<"[A-Z]+".*>>)\s*$', out, re.M)
-    m = re.search(r"Invariant (\S+) is violated", out) or re.search(r"property (\S+) (?:is|was) violated", out) \
-        or re.search(r"Temporal properties were violated", out) or re.search(r"postcondition", out, re.I) and None
+    m = re.search(r"Invariant (\S+) is violated", out) or re.search(r"property (\S+) (?:is|was) violated", out)
     if m:
-        r.violated = m.group(1) if m.groups() else "temporal"
-    if "Temporal properties were violated" in out and not r.violated:
+        r.violated = m.group(1)
+    elif "Temporal properties were violated" in out:
         r.violated = "temporal"
+    elif re.search(r"Postcondition \S+ .* is false", out):
+        r.violated = "postcondition"
+    elif "is violated" in out:
+        r.violated = "unknown"
     errs = [l for l in out.splitlines() if l.startswith("Error:")]
     if errs:
         i = out.index(errs[0])
